@@ -715,7 +715,7 @@ def shape_reply(r):
     return {"r": "ok", "v": blank(r["v"]), "rest": r["rest"]}
 
 
-def run_malformed(ctx, drv, recs_by_type, rng, per_type):
+def run_malformed(ctx, drv, recs_by_type, rng, per_type, ask=None, tag=""):
     cases, impl_r = [], []
     skipped = 0
     for node, recs in recs_by_type:
@@ -735,13 +735,13 @@ def run_malformed(ctx, drv, recs_by_type, rng, per_type):
             impl_r.append(shape_reply(a))
     ctx.extra["malformed_skipped_leaf_level"] = ctx.extra.get("malformed_skipped_leaf_level", 0) + skipped
     if drv and cases:
-        model_r = [shape_reply(b) for b in drv.ask(cases)]
+        model_r = [shape_reply(b) for b in (ask or drv.ask)(cases)]
         names = schema().nodes
-        ctx.compare_stream("malformed", cases, impl_r, model_r,
+        ctx.compare_stream(tag + "malformed", cases, impl_r, model_r,
                            sig=lambda c, m: (names[c["t"]].name, m.get("k") or "ok"))
     else:
         for _ in cases:
-            ctx.count("malformed")
+            ctx.count(tag + "malformed")
 
 
 def census_nonfamily(ctx, n_per_type):
@@ -771,17 +771,7 @@ def check_schema(ctx, drv):
     """the environment compiled into the driver == the live classes"""
     live = schema().to_json()
     got = drv.ask([{"op": "schema"}])[0]
-    want = []
-    for t in live["types"]:
-        d = {"k": t["k"]}
-        if t["k"] in ("seq", "choice"):
-            d["fields"] = [{"ref": {k: v for k, v in f["ref"].items() if k != "cls"}, "ctx": f["ctx"], "opt": f["opt"]}
-                           for f in t["fields"]]
-        elif t["k"] == "list":
-            d.update(lk=t["lk"], elem={k: v for k, v in t["elem"].items() if k != "cls"}, fixed=t["fixed"])
-        elif t["k"] == "nameValue":
-            d["dt"] = t["dt"]
-        want.append(d)
+    want = driver_env(schema())
     cases = [{"op": "schema-entry", "i": i, "name": live["types"][i]["name"]} for i in range(len(want))]
     gt = got.get("types", [])
     a = want
@@ -794,31 +784,160 @@ def check_schema(ctx, drv):
                            sig=lambda c, m: c["kind"])
 
 
+def driver_env(sch):
+    """the environment in the driver's JSON form"""
+    out = []
+    for t in sch.to_json()["types"]:
+        d = {"k": t["k"]}
+        if t["k"] in ("seq", "choice"):
+            d["fields"] = [{"ref": {k: v for k, v in f["ref"].items() if k != "cls"}, "ctx": f["ctx"], "opt": f["opt"]}
+                           for f in t["fields"]]
+        elif t["k"] == "list":
+            d.update(lk=t["lk"], elem={k: v for k, v in t["elem"].items() if k != "cls"}, fixed=t["fixed"])
+        elif t["k"] == "nameValue":
+            d["dt"] = t["dt"]
+        out.append(d)
+    return out
+
+
+def run_slice(ctx, drv, nodes, extra, per_type_mal, rng, prefix=(), tag=""):
+    """valid-value streams + oracle + malformed stream for the given types;
+    `prefix` = requests sent ahead of every driver batch (setenv)"""
+    ask = (lambda reqs: drv.ask(list(prefix) + reqs)[len(prefix):]) if drv else None
+    reqs, by_type = [], []
+    for node in nodes:
+        cases = build_cases(node, rng, ctx.quick, extra)
+        recs = run_type(ctx, reqs, node, cases)
+        by_type.append((node, recs))
+    if drv:
+        model = ask([r for r, _a, _c in reqs])
+        for stream in ("enc", "dec"):
+            sel = [(r, a, c, m) for (r, a, c), m in zip(reqs, model) if r["op"] == stream]
+            if stream == "dec" and isinstance(ctx, NoOracle):
+                # ambiguous schemas read a leaf payload as another type: compare shapes only
+                sel = [(r, shape_reply(a), c, shape_reply(m)) for r, a, c, m in sel]
+            ctx.compare_stream(tag + stream, [dict(r, type=c["type"], sig=c["sig"]) for r, _a, c, _m in sel],
+                               [a for _r, a, _c, _m in sel], [m for _r, _a, _c, m in sel],
+                               sig=lambda c, m: (c["type"], c["sig"], m.get("k") or "ok"))
+    else:
+        for r, _a, c in reqs:
+            ctx.count(tag + r["op"], (c["type"], c["sig"]))
+    for (r, _a, c) in reqs[:1]:
+        ctx.sample({"stream": tag + r["op"], "type": c["type"], "sig": c["sig"], "v": str(c["v"])[:300]})
+    run_malformed(ctx, drv, by_type, rng, per_type_mal, ask=ask, tag=tag)
+
+
 def shard_types(ctx, spec):
     """worker: a slice of the type table"""
     idxs, extra, per_type_mal, label = spec
     rng = ctx.sub_rng("c03/%s" % label)
     drv = core.Driver("drv_c03") if ctx.model_ok else None
     sch = schema()
-    reqs, by_type = [], []
-    for i in idxs:
-        node = sch.nodes[i]
-        cases = build_cases(node, rng, ctx.quick, extra)
-        recs = run_type(ctx, reqs, node, cases)
-        by_type.append((node, recs))
-    if drv:
-        model = drv.ask([r for r, _a, _c in reqs])
-        for stream in ("enc", "dec"):
-            sel = [(r, a, c, m) for (r, a, c), m in zip(reqs, model) if r["op"] == stream]
-            ctx.compare_stream(stream, [dict(r, type=c["type"], sig=c["sig"]) for r, _a, c, _m in sel],
-                               [a for _r, a, _c, _m in sel], [m for _r, _a, _c, m in sel],
-                               sig=lambda c, m: (c["type"], c["sig"], m.get("k") or "ok"))
-    else:
-        for r, _a, c in reqs:
-            ctx.count(r["op"], (c["type"], c["sig"]))
-    for (r, _a, c) in reqs[:1]:
-        ctx.sample({"stream": r["op"], "type": c["type"], "sig": c["sig"], "v": str(c["v"])[:300]})
-    run_malformed(ctx, drv, by_type, rng, per_type_mal)
+    run_slice(ctx, drv, [sch.nodes[i] for i in idxs], extra, per_type_mal, rng)
+
+
+# ------------------------------------------------------------------ synthetic schemas
+
+def synthetic_classes():
+    """classes built at run time that reach the branches of the GENERIC code no
+    shipped class uses (the theorem quantifies over every well-formed schema):
+    AnyAtomic elements (optional / required / in lists), Any without context,
+    ArrayOf elements incl. fixed length, inline and nested choices, an optional
+    structure without context in front of a context-less list, lists of choices"""
+    from bacpypes.constructeddata import Sequence, Choice, Element, SequenceOf, ArrayOf, Any, AnyAtomic
+    from bacpypes.primitivedata import Unsigned, Real, CharacterString, Boolean, Null, Enumerated, OctetString
+    from bacpypes.basetypes import DateTime
+
+    class SynInner(Sequence):
+        sequenceElements = [Element('x', Unsigned, 0), Element('y', Real, 1, True)]
+
+    class SynChoice(Choice):
+        choiceElements = [Element('n', Null), Element('u', Unsigned), Element('b', Boolean, 3),
+                          Element('s', SynInner, 0), Element('l', SequenceOf(SynInner), 1), Element('a', Any, 2)]
+
+    class SynOuterChoice(Choice):
+        choiceElements = [Element('c', SynChoice, 0), Element('e', Enumerated, 5), Element('o', OctetString)]
+
+    class SynAtoms(Sequence):
+        sequenceElements = [Element('k', Unsigned, 0), Element('req', AnyAtomic), Element('aa', AnyAtomic, None, True),
+                            Element('c', Any, 1, True), Element('arr', ArrayOf(Unsigned), 2, True),
+                            Element('arr3', ArrayOf(Real, 3), 3, True)]
+
+    class SynTryRestore(Sequence):
+        sequenceElements = [Element('k', CharacterString), Element('opt', SynInner, None, True),
+                            Element('och', SynOuterChoice, None, True), Element('tail', SequenceOf(Unsigned))]
+
+    class SynInline(Sequence):
+        sequenceElements = [Element('ch', SynChoice), Element('z', Unsigned, 9, True),
+                            Element('lst', SequenceOf(SynOuterChoice), 10, True)]
+
+    wf = [SynInner, SynChoice, SynOuterChoice, SynAtoms, SynTryRestore, SynInline,
+          SequenceOf(SynChoice), ArrayOf(SynInner, 2), SequenceOf(AnyAtomic), SequenceOf(SynAtoms)]
+
+    # NOT well-formed on purpose (ambiguous / not decodable): the model must still
+    # behave like the code; only the correspondence is evaluated on these
+    class SynAnyLast(Sequence):
+        sequenceElements = [Element('dt', DateTime), Element('flag', Boolean, 0, True), Element('rest', Any)]
+
+    class SynAmbiguous(Sequence):
+        sequenceElements = [Element('k', Unsigned, 0), Element('aa', AnyAtomic, None, True),
+                            Element('same', Unsigned, 1, True), Element('same2', Real, 1, True),
+                            Element('req', AnyAtomic)]
+
+    class SynBadChoice(Choice):
+        choiceElements = [Element('u', Unsigned), Element('aa', AnyAtomic), Element('s', SynInner),
+                          Element('r', Real, 1)]
+
+    class SynAtomCtx(Sequence):
+        sequenceElements = [Element('k', Unsigned, 0), Element('aa', AnyAtomic, 1, True)]
+
+    class SynOptList(Sequence):
+        sequenceElements = [Element('l', SequenceOf(SynInner), None, True), Element('z', Unsigned, 9, True)]
+
+    nonwf = [SynAnyLast, SynAmbiguous, SynBadChoice, SynAtomCtx, SynOptList]
+    return wf, nonwf
+
+
+class NoOracle:
+    """context proxy for schemas that are not well-formed: the library is not
+    expected to round-trip them, only the model has to agree with it"""
+
+    def __init__(self, ctx):
+        self.__dict__["_c"] = ctx
+
+    def __getattr__(self, k):
+        return getattr(self._c, k)
+
+    def __setattr__(self, k, v):
+        setattr(self._c, k, v)
+
+    def fail(self, kind, case, what, **fields):
+        self._c.count("syn-nonwf-observed", (kind, fields.get("type")))
+
+
+def run_synthetic(ctx, drv):
+    global _SCHEMA
+    core.bind_repo()
+    saved = schema()
+    wf, nonwf = synthetic_classes()
+    try:
+        for label, roots, want_wf in (("syn-", wf, True), ("synx-", nonwf, False)):
+            _SCHEMA = translator().walk(roots=roots)
+            prefix = [{"op": "setenv", "env": driver_env(_SCHEMA)}]
+            if drv:
+                info = drv.ask(prefix + [{"op": "wf"}])[1]
+                bad = [_SCHEMA.nodes[i].name for i in info.get("bad", [])]
+                if want_wf and not info.get("wf"):
+                    raise core.Infra("the synthetic environment of harness/c03.py is not well-formed: %r" % (bad,))
+                if not want_wf:
+                    ctx.extra["synthetic_types_refused_by_wfEnv"] = bad
+            rng = ctx.sub_rng("c03-" + label)
+            run_slice(ctx if want_wf else NoOracle(ctx), drv, _SCHEMA.nodes, 40 if ctx.quick else 1500,
+                      60 if ctx.quick else 2000, rng, prefix=prefix, tag=label)
+            if want_wf:
+                ctx.extra["synthetic_types"] = [n.name for n in _SCHEMA.nodes]
+    finally:
+        _SCHEMA = saved
 
 
 # ------------------------------------------------------------------ Annex F (tests, labelled as tests)
@@ -1000,13 +1119,14 @@ def run(ctx):
     run_corpus(ctx, drv)
     run_annex_f(ctx, drv)
     census_nonfamily(ctx, 6 if ctx.quick else 60)
+    run_synthetic(ctx, drv)
     n = len(sch.nodes)
     if ctx.quick:
         specs = [(sl, 10, 30, "q%d" % k) for k, sl in enumerate(type_slices(n, 16))]
     else:
         specs = []
-        for rep in range(6):
-            specs += [(sl, 60, 80, "t%d.%d" % (rep, k)) for k, sl in enumerate(type_slices(n, 16))]
+        for rep in range(16):
+            specs += [(sl, 100, 150, "t%d.%d" % (rep, k)) for k, sl in enumerate(type_slices(n, 16))]
     core.run_shards(ctx, "harness.c03", "shard_types", specs)
     ctx.extra["registered_pdus"] = sum(len(v) for v in sch.registries.values())
 
